@@ -17,14 +17,17 @@ theorem C19_saves_only_real_values_of_executed_nodes (c : Ctx) (s : St) (obs : L
     (below : List Frame) (v : Val) (executedHere : Bool) :
     nodePost c s obs d n below v executedHere =
       if executedHere && !v.isRecur && !v.isExc then
-        cbThen c ((if v.isRecur then (spawn s [.recStart d n v] (.recur n)).1 else s).setRes n v)
+        cbThen c (storeIf (recSpawn s d n v) executedHere n v)
           ((if v.isRecur then obs ++ [.spawn s.tasks.length (.recur n)] else obs) ++ [.save n v])
           (fun j => .node d n false (.cbSave j) :: below) (c.P.cbYield .save n)
           (fun s obs => nodeFinish c s obs d n below)
       else
-        retTo c (nodeFinally c.P ((if v.isRecur then (spawn s [.recStart d n v] (.recur n)).1 else s).setRes n v)
-          d n (!v.isRecur)) (if v.isRecur then obs ++ [.spawn s.tasks.length (.recur n)] else obs) below .none := by
+        retTo c (nodeFinally c.P (storeIf (recSpawn s d n v) executedHere n v) d n (!v.isRecur))
+          (if v.isRecur then obs ++ [.spawn s.tasks.length (.recur n)] else obs) below .none := by
   simp [nodePost]
+
+/-- a task that merely waited for the node (late duplicate request) neither stores nor saves anything -/
+theorem C19_duplicate_request_stores_nothing (s : St) (n : Node) (v : Val) : storeIf s false n v = s := rfl
 
 theorem retTo_obs (c : Ctx) (s : St) (obs : List Obs) (below : List Frame) (v : Val) :
     (retTo c s obs below v).2 = obs ∨ (retTo c s obs below v).2 = obs ++ [.done c.t .ok] := by
@@ -55,7 +58,7 @@ theorem C19_no_marker_or_failure_saved (c : Ctx) (s : St) (obs : List Obs) (d : 
     · simpa using h
 
 /-- the value the consumers read is the value that was saved: both are `v` -/
-theorem C19_saved_value_is_stored_value (s : St) (n : Node) (v : Val) : (s.setRes n v).getHid n = v := by
-  simp [St.setRes, St.getHid]
+theorem C19_saved_value_is_stored_value (s : St) (n : Node) (v : Val) : (storeIf s true n v).getHid n = v := by
+  simp [storeIf, St.setRes, St.getHid]
 
 end MLPE.Eng
